@@ -50,7 +50,12 @@ def gen_file(rng, with_config=None, ecc=True):
                 encs.append(f"C{hx(ck_key)}:-:0")
             else:
                 pos = rng.randrange(0, 17)
-                encs.append(f"C{hx(ck_key)}:{hx(g.rbytes(rng, 10))}:{pos}")
+                ck = g.rbytes(rng, 10)
+                if rng.random() < 0.35:
+                    # value collision: the session key itself contains the ten bytes of the customer key
+                    o = rng.randrange(0, 7)
+                    key = key[:o] + ck + key[o + 10:]
+                encs.append(f"C{hx(ck_key)}:{hx(ck)}:{pos}")
         elif k == "e":
             sel = rng.randrange(0, 4)
             d = gen_scalar(rng)
